@@ -25,6 +25,8 @@ import (
 	"time"
 
 	"github.com/gorilla/websocket"
+
+	vk "github.com/sheerbytes/sheerbytes/internal/verifkit"
 )
 
 // c14Clock is the one monotonic time source of the check (ns since process-local base).
@@ -448,6 +450,7 @@ type c14Join struct {
 	Status     int    // HTTP status (101 when upgraded)
 	ErrText    string // server's error text when refused
 	NetErr     string
+	Ext        string `json:",omitempty"` // extensions the server accepted in its 101 response
 	WS         *c14WS `json:"-"`
 }
 
@@ -469,6 +472,18 @@ func (s *c14Server) predial() (net.Conn, error) {
 
 // join performs the upgrade on pre (or a fresh connection when pre is nil).
 func (s *c14Server) join(pre net.Conn, code, role, peerID string, extra url.Values) *c14Join {
+	return s.joinOpt(pre, code, role, peerID, extra, c14DialOpt{})
+}
+
+// c14DialOpt: the wire representation the client chooses for its messages. Both are the client's
+// choice alone (RFC 6455 fragmentation, RFC 7692 permessage-deflate offer); what a message IS -
+// and therefore what --max-message-bytes limits - does not depend on them.
+type c14DialOpt struct {
+	OfferDeflate bool // Sec-WebSocket-Extensions: permessage-deflate offered in the handshake
+	WriteBuf     int  // > 0: gorilla's write buffer = largest frame payload; longer messages go out as continuation frames
+}
+
+func (s *c14Server) joinOpt(pre net.Conn, code, role, peerID string, extra url.Values, opt c14DialOpt) *c14Join {
 	j := &c14Join{Role: role, PeerID: peerID}
 	q := url.Values{}
 	q.Set("join_code", code)
@@ -478,7 +493,11 @@ func (s *c14Server) join(pre net.Conn, code, role, peerID string, extra url.Valu
 		q[k] = v
 	}
 	u := fmt.Sprintf("ws://127.0.0.1:%d/ws?%s", s.Port, q.Encode())
-	d := websocket.Dialer{HandshakeTimeout: 10 * time.Second, ReadBufferSize: 4096, WriteBufferSize: 4096,
+	wbuf := 4096
+	if opt.WriteBuf > 0 {
+		wbuf = opt.WriteBuf
+	}
+	d := websocket.Dialer{HandshakeTimeout: 10 * time.Second, ReadBufferSize: 4096, WriteBufferSize: wbuf, EnableCompression: opt.OfferDeflate,
 		NetDialContext: func(ctx context.Context, network, addr string) (net.Conn, error) {
 			if pre != nil {
 				c := pre
@@ -507,12 +526,21 @@ func (s *c14Server) join(pre net.Conn, code, role, peerID string, extra url.Valu
 		return j
 	}
 	j.Status = http.StatusSwitchingProtocols
+	if resp != nil {
+		j.Ext = resp.Header.Get("Sec-Websocket-Extensions")
+	}
 	j.WS = c14WrapWS(conn, peerID)
 	return j
 }
 
 // c14Envelope builds a valid protocol envelope of exactly size bytes (size >= ~90).
 func c14Envelope(msgID, to string, size int) []byte {
+	return c14EnvelopeFill(msgID, to, size, nil)
+}
+
+// c14EnvelopeFill: as c14Envelope; the padding is one repeated character (rng == nil, highly
+// compressible) or characters drawn from a 64-symbol alphabet (hardly compressible).
+func c14EnvelopeFill(msgID, to string, size int, rng *vk.Rng) []byte {
 	head := fmt.Sprintf(`{"v":1,"type":"c14.test","msg_id":%q,"to":%q,"payload":"`, msgID, to)
 	tail := `"}`
 	pad := size - len(head) - len(tail)
@@ -522,8 +550,13 @@ func c14Envelope(msgID, to string, size int) []byte {
 	var sb strings.Builder
 	sb.Grow(len(head) + pad + len(tail))
 	sb.WriteString(head)
+	const alpha = "ABCDEFGHIJKLMNOPQRSTUVWXYZabcdefghijklmnopqrstuvwxyz0123456789-_"
 	for i := 0; i < pad; i++ {
-		sb.WriteByte('x')
+		if rng != nil {
+			sb.WriteByte(alpha[rng.Intn(64)])
+		} else {
+			sb.WriteByte('x')
+		}
 	}
 	sb.WriteString(tail)
 	return []byte(sb.String())
